@@ -232,21 +232,36 @@ def run_equivariance(h, sc, ec, P, N, pos_ranks):
     cap = h.const(f"{min(P * (N + kn), N * (P + kp))}/{(P + kp) * (N + kn)}")
     h.assume(h.And(0 <= x, x <= cap))
 
-    def sign_of_f(S):
+    def sign_of_f(S, scores):
+        # sign(sgn * d) computed from the two signs separately: the product of two symbolic terms would make the query
+        # nonlinear for nothing
         sgn = -(S.threshold_at_fpr(h.const("0")) - S.threshold_at_fnr(h.const("0")))
-        y = sgn * (S.threshold_at_fpr(x) - S.threshold_at_fnr(x))
-        return h.ite(y > 0, 1, h.ite(y < 0, -1, 0))
+        c, d_ = S.threshold_at_fpr(x), S.threshold_at_fnr(x)
+        d = c - d_
+        s1 = h.ite(sgn > 0, 1, h.ite(sgn < 0, -1, 0))
+        s2 = h.ite(d > 0, 1, h.ite(d < 0, -1, 0))
+        # ulp zone: an interpolated threshold strictly within one float step of a score.  There the one-step sentinel
+        # (nextafter) of the other metric decides the sign, and a float step is not affine-equivariant: outside the claim.
+        zone = []
+        for v in scores:
+            lo_, up_ = h.np.nextafter(v * 1.0 if h.mode != "sym" else v, -float("inf")), h.np.nextafter(v * 1.0 if h.mode != "sym" else v, float("inf"))
+            for t in (c, d_):
+                zone.append(h.Or(h.And(h.le(lo_, t, 0), t < v), h.And(v < t, h.le(t, up_, 0))))
+        return s1 * s2, h.Or(zone)
 
     pos, neg = _ranked(h, P, N, pos_ranks)
     S = h.sa.Scores(h.array(pos), h.array(neg), nb_easy_pos=kp, nb_easy_neg=kn, score_class=sc, equal_class=ec)
-    s0 = sign_of_f(S)
+    s0, z0 = sign_of_f(S, pos + neg)
     for a, b in (("1/2", "-7"), ("3", "5")):
         pa, na = _ranked(h, P, N, pos_ranks, h.const(a), h.const(b))
         A = h.sa.Scores(h.array(pa), h.array(na), nb_easy_pos=kp, nb_easy_neg=kn, score_class=sc, equal_class=ec)
-        h.check(f"sign of the EER root function is invariant under s -> {a}*s + {b}", h.eq(sign_of_f(A), s0))
+        sA, zA = sign_of_f(A, pa + na)
+        h.check(f"sign of the EER root function is invariant under s -> {a}*s + {b} (outside the one-float-step zone around the scores)", h.Or(z0, zA, h.eq(sA, s0)))
     other = {"pos": "neg", "neg": "pos"}[sc]
-    R = h.sa.Scores(h.array([-v for v in pos]), h.array([-v for v in neg]), nb_easy_pos=kp, nb_easy_neg=kn, score_class=other, equal_class=ec)
-    h.check("sign of the EER root function is invariant under negation + direction flip", h.eq(sign_of_f(R), s0))
+    npos, nneg = [-v for v in pos], [-v for v in neg]
+    R = h.sa.Scores(h.array(npos), h.array(nneg), nb_easy_pos=kp, nb_easy_neg=kn, score_class=other, equal_class=ec)
+    sR, zR = sign_of_f(R, npos + nneg)
+    h.check("sign of the EER root function is invariant under negation + direction flip (outside the one-float-step zone)", h.Or(z0, zR, h.eq(sR, s0)))
 
 
 def run_fbits(h, sc, ec):
